@@ -360,6 +360,18 @@ def listing(chk, P):
     extra = [k for k in listed if k not in ["%s:%s" % (s, key) for s, o in allsecs.items() for key in o]]
     chk.ob("C14.O4", "nothing is listed that is not an item of the file", not extra, site=site, found=extra or None, expect="no extra items",
            key="C14.O4|no-extra")
+    # --list-items as printed: one line 'SECTION:KEY=VALUE' per item, in listing order
+    ali = P.func(QA, "action_list_items")
+    J = F.make_interp(P)
+    cpj = InstV(P.cls(CP, "ConfigParser"))
+    cpj.attrs["_config_parser"] = PyObjV(RawModel(sections, defaults))
+    J.run(ali, [cpj])
+    out = W.out_tree(J.stdout())
+    text = out.text if isinstance(out, SLit) else None
+    want_text = "".join("%s=%s\n" % (it.items[0].v, it.items[1].v) for it in items.items
+                        if isinstance(it.items[0], Const) and isinstance(it.items[1], Const))
+    chk.ob("C14.O4", "--list-items prints 'SECTION:KEY=VALUE' lines, one per item", text is not None and text == want_text, site=ali.site(),
+           found=(text or repr(out))[:200], expect=want_text[:200], key="C14.O4|printed-format")
     # --item-value
     iv = P.func(QA, "_item_value")
     cfg = P.cls("atsim.potentials.config._common", "ConfigurationException")
